@@ -198,5 +198,13 @@ v('c12-stamp-before-send-zero', 'C12', 'fire', A, "                            *
 v('c12-benign-floor-removed', 'C12', 'silent', A, "                    if (band->hello_timeout_ts < now_ms + HELLO_MIN_INTERVAL_MS) {\n                        band->hello_timeout_ts = now_ms + HELLO_MIN_INTERVAL_MS;\n                    }\n", "", note='the post-send deadline floor is redundant: the suppression test alone enforces the 1000 ms spacing')
 v('c12-benign-reorder-reset', 'C12', 'silent', A, "                enumeration->current_state = 0;\n                band->hello_timeout_ts = 0;\n                band->block_timeout_ts = 0;\n                band->begun = false;", "                band->begun = false;\n                band->block_timeout_ts = 0;\n                band->hello_timeout_ts = 0;\n                enumeration->current_state = 0;")
 
+# ---- C17
+v('c17-static-cache-tlv', 'C17', 'fire', T, "size_t setHostIdTLV(void *buffer, size_t offset, void *iface_ctx) {\n    uint8_t *base = (uint8_t *)buffer;", "static ethernet_address_t cached_mac;\nstatic int cached_mac_valid;\n\nsize_t setHostIdTLV(void *buffer, size_t offset, void *iface_ctx) {\n    uint8_t *base = (uint8_t *)buffer;\n    (void)cached_mac; (void)cached_mac_valid;", 'R17.1', 'a cache shared by all interfaces')
+v('c17-static-local-seq', 'C17', 'fire', B, "    st->mapper_seq = lltd_ntohs(inHeader->seqNumber);\n    st->mapper_real = inHeader->realSource;", "    static uint16_t last_seq;\n    last_seq = lltd_ntohs(inHeader->seqNumber);\n    st->mapper_seq = last_seq;\n    st->mapper_real = inHeader->realSource;", 'R17.1')
+v('c17-wrong-ctx-send', 'C17', 'fire', B, "    (void)lltd_port_send_frame(iface_ctx, buffer, offset);\n    lltd_port_free(buffer);\n}\n\n//====", "    (void)lltd_port_send_frame(st->next ? st->next->iface_ctx : iface_ctx, buffer, offset);\n    lltd_port_free(buffer);\n}\n\n//====", 'R17.2')
+v('c17-lookup-first-record', 'C17', 'fire', B, "        if (cur->iface_ctx == iface_ctx) {\n            return cur;\n        }", "        if (cur->iface_ctx == iface_ctx || cur->next == NULL) {\n            return cur;\n        }", 'R17.2')
+v('c17-global-used-elsewhere', 'C17', 'fire', B, "static void lltd_state_clear_icon_cache(lltd_iface_state *st) {\n    if (!st) {\n        return;\n    }", "static void lltd_state_clear_icon_cache(lltd_iface_state *st) {\n    if (!st) {\n        st = g_iface_states;\n    }\n    if (!st) {\n        return;\n    }", 'R17.2')
+v('c17-benign-const-table', 'C17', 'silent', T, "size_t setHostIdTLV(void *buffer, size_t offset, void *iface_ctx) {\n    uint8_t *base = (uint8_t *)buffer;", "static const uint8_t lltd_tlv_pad[2] = {0, 0};\n\nsize_t setHostIdTLV(void *buffer, size_t offset, void *iface_ctx) {\n    uint8_t *base = (uint8_t *)buffer;\n    (void)lltd_tlv_pad;")
+
 json.dump(V, open(os.path.join(HERE, 'variants.json'), 'w'), indent=1)
 print(len(V), 'variants')
